@@ -4,8 +4,10 @@ import json, os, shutil, subprocess, sys
 sid = sys.argv[1]
 checks = json.loads(sys.argv[2])
 src, dst, wt = "/tmp/seedout-%s" % sid, "/verif/seeded/%s" % sid, "/tmp/seed-%s" % sid
+if len(sys.argv) > 4:       # archive_seed.py <name> <checks> <worktree> <outdir>
+    wt, src = sys.argv[3], sys.argv[4]
 shutil.rmtree(dst, ignore_errors=True)
-shutil.copytree(src, dst, ignore=shutil.ignore_patterns("property.json", "*.pyc", "__pycache__", ".pyscn", "pyscn", "pyscn_bin", "*.bin"))
+shutil.copytree(src, dst, ignore=shutil.ignore_patterns("property.json", "*.pyc", "__pycache__", ".pyscn", "pyscn", "pyscn_bin", "*.bin", "p.diff", "*.log"))
 diff = subprocess.run(["git", "-C", wt, "diff"], capture_output=True, text=True).stdout
 if diff.strip():
     open(os.path.join(dst, "patch.diff"), "w").write(diff)
